@@ -433,8 +433,9 @@ def _tile(buf, rng, src, orig):
     elif rk[0] == "range":
         d = _lin_sub(rk[2], rk[1])
         srclen = _unlin(d) if d is not None else srclen
-    if srclen is None and rk[0] == "from" and buf and buf[-1][0] == "z":
-        # dst = buf[a..] is everything after a; having returned, |src| is the length of that region
+    if rk[0] == "from" and buf and buf[-1][0] == "z":
+        # dst = buf[a..] is everything after a; having returned, |src| is the length of that region (whatever else is
+        # known about the source's length - that the two agree is the abort census's business)
         hl0 = _total_len(buf[:-1])
         if hl0 is not None and _lin_eq(rk[1], hl0):
             srclen = buf[-1][1]
